@@ -8,15 +8,13 @@ import Optyx.Generated.PinsC10
 namespace Optyx.Props.PinsC10
 open Optyx.Generated.PinsC10
 
-/-- `Constraint.get_variables` (constraints.py) -/
-theorem pin_constraints_Constraint_get_variables_anchor : pin_constraints_Constraint_get_variables = "1984ddae9519490c" := rfl
 /-- `_make_constraint` (constraints.py) -/
 theorem pin_constraints_make_constraint_anchor : pin_constraints_make_constraint = "f94a0d73e3549836" := rfl
 /-- `solve_scipy` (solvers/scipy_solver.py) -/
 theorem pin_scipy_solver_solve_scipy_anchor : pin_scipy_solver_solve_scipy = "e7c69a3a73fa09d9" := rfl
 
 /-- every function the model of C10 transcribes (and no translator covers) is the one it was read from -/
-theorem anchors : pin_constraints_Constraint_get_variables = "1984ddae9519490c" ∧ pin_constraints_make_constraint = "f94a0d73e3549836" ∧ pin_scipy_solver_solve_scipy = "e7c69a3a73fa09d9" :=
-  ⟨pin_constraints_Constraint_get_variables_anchor, pin_constraints_make_constraint_anchor, pin_scipy_solver_solve_scipy_anchor⟩
+theorem anchors : pin_constraints_make_constraint = "f94a0d73e3549836" ∧ pin_scipy_solver_solve_scipy = "e7c69a3a73fa09d9" :=
+  ⟨pin_constraints_make_constraint_anchor, pin_scipy_solver_solve_scipy_anchor⟩
 
 end Optyx.Props.PinsC10
